@@ -242,15 +242,18 @@ impl<T: Payload> ThreadCtx<T> {
             s.enter(op.may_block(), id);
         }
         payload::set_cur_op(id);
+        crate::fp::reg_reset();
         let t0 = now();
         let res = self.run(op, &mut made, &mut polls);
         let t1 = now();
         payload::set_cur_op(0);
+        // only for operations that can sit in the wait list and were not cancelled by their own deadline before
+        let reg_t = if op.may_block() { crate::fp::reg_take() } else { None };
         if let Some(s) = self.status {
             s.leave();
         }
         debug_assert!(made.is_none());
-        self.log.push(Event { th: self.th, idx, op, tag, t0, t1, res, polls, reg_t: None });
+        self.log.push(Event { th: self.th, idx, op, tag, t0, t1, res, polls, reg_t });
         Some(self.log.len() - 1)
     }
 
